@@ -173,3 +173,25 @@ func FromHash(group Curve, h []byte) Scalar {
 	}
 	return group.NewScalar().SetNat(s)
 }
+
+// IsNilPoint returns true if p is nil, or an interface holding a nil pointer.
+func IsNilPoint(p Point) bool {
+	if p == nil {
+		return true
+	}
+	if v, ok := p.(*Secp256k1Point); ok {
+		return v == nil
+	}
+	return false
+}
+
+// IsNilScalar returns true if s is nil, or an interface holding a nil pointer.
+func IsNilScalar(s Scalar) bool {
+	if s == nil {
+		return true
+	}
+	if v, ok := s.(*Secp256k1Scalar); ok {
+		return v == nil
+	}
+	return false
+}
